@@ -79,7 +79,7 @@ func schedConfig(c *Case, est uint64) zzsim.Config {
 	cfg := zzsim.Config{
 		Seed: s.Seed, SwitchInv: s.SwitchInv, BoostInv: s.BoostInv, PCTDepth: s.PCTDepth,
 		EstSteps: est, Quantum: s.Quantum, Victim: s.Victim, StarveTo: est * s.StarveFr / 256,
-		Budget: 64*est + 200000, MapSalt: c.MapSalt,
+		Budget: 64*est + 200000, MapSalt: c.MapSalt, RecordBoosted: c.recordBoosted,
 	}
 	switch s.Strategy {
 	case "random":
@@ -333,6 +333,84 @@ func runPB1(c *Case, maxRuns int) (int, *Result) {
 					}
 				}
 			}
+		}
+	}
+	return n, nil
+}
+
+// runPB2 is the two-preemption companion of runPB1: task t runs up to one of
+// its boosted decision points (a lock, atomic, pool or callback boundary),
+// task u then runs up to one of its own, t resumes and finishes, u finishes.
+// All pairs of boosted points of all ordered task pairs are enumerated; when
+// there are more than maxRuns of them a seed-determined sample of that size is
+// taken (a stride through the enumeration, so that early and late points are
+// represented alike).
+func runPB2(c *Case, maxRuns int) (int, *Result) {
+	base := *c
+	base.Sched = SchedM{Strategy: "replay", Seed: c.Sched.Seed}
+	base.ConcFirst = false
+	base.refOf = c
+	// the boosted points of every task, from runs in which that task goes first
+	pts := make([][]zzsim.BoostPt, len(c.Tasks))
+	n := 0
+	for t := range c.Tasks {
+		first := base
+		first.recordBoosted = true
+		first.Sched.Replay = []zzsim.Switch{{From: -1, To: t}}
+		r0 := runCase(&first)
+		n++
+		if r0.Verdict != "ok" {
+			r0.Stats.Schedule = first.Sched.Replay
+			r0.Stats.BoostedPts = nil
+			return n, r0
+		}
+		for _, p := range r0.Stats.BoostedPts {
+			if int(p.Task) == t {
+				pts[t] = append(pts[t], p)
+			}
+		}
+	}
+	type pair struct{ t, u, a, b int }
+	var all []pair
+	for t := range c.Tasks {
+		for u := range c.Tasks {
+			if u == t {
+				continue
+			}
+			for a := range pts[t] {
+				for b := range pts[u] {
+					all = append(all, pair{t, u, a, b})
+				}
+			}
+		}
+	}
+	if len(all) == 0 {
+		return n, nil
+	}
+	budget := maxRuns - n
+	if budget < 1 {
+		budget = 1
+	}
+	stride, off := 1, 0
+	if len(all) > budget {
+		stride = (len(all) + budget - 1) / budget
+		off = int(zzsim.Mix(c.Sched.Seed, 0x9b2) % uint64(stride))
+	}
+	for i := off; i < len(all); i += stride {
+		q := all[i]
+		pa, pb := pts[q.t][q.a], pts[q.u][q.b]
+		cc := base
+		cc.Sched.Replay = []zzsim.Switch{{From: -1, To: q.t},
+			{From: q.t, Op: pa.Op, Local: pa.Local, To: q.u},
+			{From: q.u, Op: pb.Op, Local: pb.Local, To: q.t}}
+		r := runCase(&cc)
+		n++
+		if n%200 == 0 && Progress != nil {
+			Progress(n)
+		}
+		if r.Verdict != "ok" {
+			r.Stats.Schedule = cc.Sched.Replay
+			return n, r
 		}
 	}
 	return n, nil
